@@ -200,6 +200,12 @@ def Sess.dropRecvEntry (s : Sess) (sid : Nat) : Sess :=
   | some h => s.modObj h (fun o => { o with rd := o.rd.closeChan })
   | none => s
 
+/-- FIN arm: the stream registered under `sid` (if any) has its pending open failed -/
+def Sess.failPendingOpen (s : Sess) (sid : Nat) : Sess :=
+  match tblGet s.streams sid with
+  | some h => s.modObj h (fun o => o.notifySynack (.err "Protocol error: stream closed by peer"))
+  | none => s
+
 inductive Outcome where
   | continue
   | stop (reason : String)
@@ -268,6 +274,8 @@ def Sess.handleFrame (s : Sess) (f : Frame) : Sess × Outcome :=
     else (s, .continue)
   | .fin =>
     let s := s.dropRecvEntry f.sid
+    -- a pending open of the closed stream fails now (first-wins: a no-op once it was answered)
+    let s := s.failPendingOpen f.sid
     ({ s with streams := tblRemove s.streams f.sid, recv := tblRemove s.recv f.sid }, .continue)
   | .settings =>
     if !s.isClient && !f.data.isEmpty then s.handleSettings f.data else (s, .continue)
